@@ -10,3 +10,4 @@ Definition k_flow_OtherKeyAttribute_unpack : pfun :=
     ] [];
     SReturn (PCall "OtherKeyAttribute/key_attr_id,key_attr" [(PName "key_attr_id"); (PName "key_attr")])
   ] |}.
+Definition k_flow_OtherKeyAttribute_unpack_defaults : list (string * pexp) := [("header", PNone)].
